@@ -1,9 +1,116 @@
 /-
-Judging of the stateless predicate lines (`P ...`) of the harness.
+Judging of the stateless predicate lines (`P ...`) of the harness: the implementation's answers
+are compared (a) with the specification on exact values (clause tagged C06 / C08 / C20) and
+(b) with the T0-generated model of the very function (clause tagged `Cxx:model` — model drift).
 -/
 import Spade.Judge
+import Spade.Generated.Leaf
 namespace Spade
+open Spade.Generated
 
-def judgePred (_t : Array String) : List Fail := []
+def b2s (b : Bool) : String := if b then "1" else "0"
+
+def errStr : Except InsErr Unit → String
+  | .ok _ => "ok"
+  | .error e => toString e
+
+def parsePts (t : Array String) (start n : Nat) : Option (List Pt) :=
+  (List.range n).mapM fun i => parsePt (t.getD (start + 2 * i) "") (t.getD (start + 2 * i + 1) "")
+
+/-- `differ` of two LineSideInfo values in terms of exact determinants -/
+def sidesDiffer (o1 o2 : Int) : Bool :=
+  if o1 == 0 || o2 == 0 then !(o1 == 0 && o2 == 0) else decide (o1 < 0) != decide (o2 < 0)
+
+def judgePred (t : Array String) : List Fail :=
+  let kind := t.getD 0 ""
+  let arrow := t.toList.idxOf "=>"
+  let res := (t.toList.drop (arrow + 1))
+  let both := fun (prop : String) (clause : String) (impl spec model : String) (detail : Unit → String) =>
+    chk (impl == spec) prop clause (fun _ => s!"{detail ()}: impl={impl} spec={spec}") ++
+    chk (impl == model) (prop ++ ":model") (clause ++ "-model") (fun _ => s!"{detail ()}: impl={impl} generated-model={model}")
+  match kind with
+  | "consts" =>
+    match parseCoord (t.getD 1 ""), parseCoord (t.getD 2 "") with
+    | some mn, some mx =>
+      chk (mn == .fin (minAllowedScaled : Int) && mx == .fin (maxAllowedScaled : Int)) "C08" "limits-not-2^-142-2^201"
+        (fun _ => s!"{t.toList}") ++
+      chk (mn == MIN_ALLOWED_VALUE && mx == MAX_ALLOWED_VALUE) "C08:model" "limits-differ-from-generated" (fun _ => "")
+    | _, _ => [⟨"INTERNAL", "protocol", "consts"⟩]
+  | "val" =>
+    match parseCoord (t.getD 1 "") with
+    | some c =>
+      both "C08" "validate-coordinate" (" ".intercalate res) (errStr c.validSpec)
+        (errStr (validate_coordinate c)) (fun _ => t.getD 1 "")
+    | none => [⟨"INTERNAL", "protocol", "val"⟩]
+  | "valv" =>
+    match parseCoord (t.getD 1 ""), parseCoord (t.getD 2 "") with
+    | some x, some y =>
+      let spec := match x.validSpec with | .error e => .error e | .ok _ => y.validSpec
+      both "C08" "validate-vertex" (" ".intercalate res) (errStr spec) (errStr (validate_vertex x y))
+        (fun _ => s!"{t.getD 1 ""} {t.getD 2 ""}")
+    | _, _ => [⟨"INTERNAL", "protocol", "valv"⟩]
+  | "mit" =>
+    match parseCoord (t.getD 1 ""), parseCoord (t.getD 2 ""), parseCoord (res.getD 0 ""), parseCoord (res.getD 1 "") with
+    | some x, some y, some rx, some ry =>
+      let spec := fun (c : Coord) => if errStr c.validSpec == "TooSmall" then Coord.fin 0 else c
+      let never := fun (c : Coord) => errStr c.validSpec != "TooSmall"
+      chk (rx == spec x && ry == spec y) "C08" "mitigate-underflow" (fun _ => s!"{t.toList}") ++
+      chk (never rx && never ry) "C08" "mitigate-underflow-still-too-small" (fun _ => s!"{t.toList}") ++
+      chk (rx == mitigate_underflow_for_coordinate x && ry == mitigate_underflow_for_coordinate y)
+        "C08:model" "mitigate-underflow-model" (fun _ => s!"{t.toList}")
+    | _, _, _, _ => [⟨"INTERNAL", "protocol", "mit"⟩]
+  | "side" =>
+    match parsePts t 1 3 with
+    | some [a, b, q] =>
+      let o := orient a b q
+      let spec := [b2s (o > 0), b2s (o < 0), b2s (o == 0), b2s (o ≥ 0), b2s (o ≤ 0), b2s (o < 0),
+                   b2s (o == 0), b2s (o == 0)]
+      let s := side_query a b q
+      let s2 := side_query b a q
+      let model := [b2s (is_on_left_side s), b2s (is_on_right_side s), b2s (is_on_line s),
+                    b2s (is_on_left_side_or_on_line s), b2s (is_on_right_side_or_on_line s),
+                    b2s (is_on_left_side (reversed s)), b2s (lineSideEq s s2), b2s (lineSideEq s (reversed s))]
+      both "C06" "side-query" (" ".intercalate res) (" ".intercalate spec) (" ".intercalate model)
+        (fun _ => s!"a={a} b={b} q={q}")
+    | _ => [⟨"INTERNAL", "protocol", "side"⟩]
+  | "ccw" =>
+    match parsePts t 1 3 with
+    | some [a, b, q] =>
+      both "C06" "is-ordered-ccw" (" ".intercalate res) (b2s (orient a b q ≥ 0)) (b2s (is_ordered_ccw a b q))
+        (fun _ => s!"a={a} b={b} q={q}")
+    | _ => [⟨"INTERNAL", "protocol", "ccw"⟩]
+  | "incirc" =>
+    match parsePts t 1 4 with
+    | some [a, b, c, d] =>
+      both "C06" "contained-in-circumference" (" ".intercalate res) (b2s (incircle a b c d > 0))
+        (b2s (contained_in_circumference a b c d)) (fun _ => s!"a={a} b={b} c={c} d={d}")
+    | _ => [⟨"INTERNAL", "protocol", "incirc"⟩]
+  | "isec" =>
+    match parsePts t 1 4 with
+    | some [a, b, c, d] =>
+      let spec := sidesDiffer (orient a b c) (orient a b d) && sidesDiffer (orient c d a) (orient c d b)
+      both "C06" "intersects-edge-non-collinear" (" ".intercalate res) (b2s spec)
+        (b2s (intersects_edge_non_collinear a b c d)) (fun _ => s!"a={a} b={b} c={c} d={d}")
+    | _ => [⟨"INTERNAL", "protocol", "isec"⟩]
+  | "proj" =>
+    match parsePts t 1 3 with
+    | some [a, b, q] =>
+      let f := dotFrom a b q
+      let l := dotFrom a b b
+      let spec := [b2s (f < 0), b2s (f > l), b2s (0 ≤ f && f ≤ l)]
+      let (pf, pl) := project_point a b q
+      let model := [b2s (is_before_edge pf pl), b2s (is_behind_edge pf pl), b2s (is_on_edge pf pl)]
+      both "C06" "point-projection" (" ".intercalate res) (" ".intercalate spec) (" ".intercalate model)
+        (fun _ => s!"a={a} b={b} q={q}")
+    | _ => [⟨"INTERNAL", "protocol", "proj"⟩]
+  | "encr" =>
+    match parsePts t 1 3 with
+    | some [a, b, q] =>
+      -- strictly inside the diametral circle ⇔ the angle a q b is obtuse
+      let spec := (a.x - q.x) * (b.x - q.x) + (a.y - q.y) * (b.y - q.y) < 0
+      both "C20" "is-encroaching-edge" (" ".intercalate res) (b2s spec) (b2s (is_encroaching_edge a b q))
+        (fun _ => s!"a={a} b={b} q={q}")
+    | _ => [⟨"INTERNAL", "protocol", "encr"⟩]
+  | _ => []
 
 end Spade
